@@ -8,6 +8,8 @@ import Proofs.Lemmas.Access
 import Proofs.Lemmas.AccessTypes
 import Proofs.Lemmas.AccessKnown
 import Proofs.Lemmas.Inst
+import Proofs.Lemmas.AccessPos
+import Proofs.Lemmas.AccessNamed
 /-!
 # C07 — visibility and declared types are enforced at every access path and boundary
 
@@ -35,7 +37,7 @@ static property are lost when the class is parsed), the return type of closures 
 against the table as it was (`pinnedBefore`), next to the proof that the same sites are now refused.
 -/
 namespace C07
-open Model.Access Model.Types Spec.Access Spec.Types Proofs.Access Proofs.AccessTypes Proofs.AccessKnown
+open Model.Access Model.Types Spec.Access Spec.Types Proofs.Access Proofs.AccessTypes Proofs.AccessKnown Proofs.AccessPos
 
 /-- what the language guarantees about where code runs (not about visibility): a class context runs code
 of the context class or of a class it inherits from; code written in a class runs in a class context
@@ -697,6 +699,153 @@ example : Model.Inst.newRun ⟨[⟨1, none, [], true, [], [7]⟩, ⟨2, some 1, 
 
 /-! ## obligations on the regenerated tables (re-checked by `lake build` on every run) -/
 
+/-! ## several items in one construct: the outcome does not depend on WHERE the offending item stands
+
+Added after the seeded change `C07-ctor-arg-error-overwritten` (the test of `acl` inside the constructor's
+binding loop removed as a "duplicate" of the test after it: only the last parameter's result survived). The
+boundary model above has ONE slot; here a call has a list of slots, a statement sequence a list of stores, an
+expression a list of operands. -/
+
+/-- **C07_call_accepted_iff_all.** A call through a loop that tests each binding runs the callee's body iff EVERY
+parameter is handed a value and lets it in — for every number of parameters, every position. -/
+theorem C07_call_accepted_iff_all (isA : Name → Name → Bool) (slots : List Slot) :
+    bindArgs .eachChecked isA slots = .ran ↔ ∀ s ∈ slots, s.fine isA = true :=
+  bindEach_ran_iff isA slots 0
+
+/-- **C07_call_reports_first.** … and what is reported otherwise is the FIRST parameter that is not fine: a
+refusal of slot `j` (`raised` when its argument threw) where every slot before `j` is fine. -/
+theorem C07_call_reports_first (isA : Name → Name → Bool) (slots : List Slot) (o : CallOut)
+    (h : bindArgs .eachChecked isA slots = o) (hne : o ≠ .ran) :
+    ∃ j s, slots[j]? = some s ∧ s.fine isA = false ∧
+      (∀ k, k < j → ∀ u, slots[k]? = some u → u.fine isA = true) ∧
+      ((s.a = .throws ∧ o = .raised j) ∨ (s.a ≠ .throws ∧ o = .rejected j)) := by
+  have := bindEach_first isA slots 0 o h hne
+  simpa using this
+
+/-- **C07_call_exact.** With exact boundaries (what `C07_boundaries_within_known` demands of every parameter
+boundary): the body runs iff every parameter is handed a value that its declared type denotes. -/
+theorem C07_call_exact (H : Hier) (isA : Name → Name → Bool) (hi : ∀ c n, isA c n = true ↔ IsA H c n)
+    (slots : List Slot) (hk : ∀ s ∈ slots, s.k = .exact) :
+    bindArgs .eachChecked isA slots = .ran ↔ ∀ s ∈ slots, ∃ v, s.a = .val v ∧ denote H s.t v := by
+  rw [C07_call_accepted_iff_all]
+  constructor
+  · intro h s hs
+    have hf := h s hs
+    unfold Slot.fine at hf
+    cases ha : s.a with
+    | val v =>
+      rw [ha] at hf
+      simp only at hf
+      rw [hk s hs] at hf
+      exact ⟨v, rfl, (C07_boundary_exact H isA hi s.t v).mp hf⟩
+    | throws => rw [ha] at hf; cases hf
+    | missing => rw [ha] at hf; cases hf
+  · intro h s hs
+    obtain ⟨v, hv, hd⟩ := h s hs
+    unfold Slot.fine
+    rw [hv]
+    simp only
+    rw [hk s hs]
+    exact (C07_boundary_exact H isA hi s.t v).mpr hd
+
+/-- **C07_call_eval_order_irrelevant.** Methods evaluate every argument before they bind the first
+(`callMethodParams`), the other callables evaluate each argument when they bind it: which offender is reported
+may differ, whether the body runs does not. -/
+theorem C07_call_eval_order_irrelevant (isA : Name → Name → Bool) (slots : List Slot) :
+    bindEvalFirst .eachChecked isA slots = .ran ↔ bindArgs .eachChecked isA slots = .ran :=
+  bindEvalFirst_ran_iff isA slots
+
+/-- **C07_refused_call_body_does_not_run.** The callee's body runs (once) exactly when every slot is fine. -/
+theorem C07_refused_call_body_does_not_run (isA : Name → Name → Bool) (slots : List Slot) :
+    (bindArgs .eachChecked isA slots).bodyRuns = 1 ↔ ∀ s ∈ slots, s.fine isA = true := by
+  rw [← C07_call_accepted_iff_all]
+  cases bindArgs .eachChecked isA slots <;> simp [CallOut.bodyRuns]
+
+/-- **C07_last_only_depends_on_last.** A loop that tests the result after its last iteration only: whether the
+body runs depends on the LAST slot and on nothing else. -/
+theorem C07_last_only_depends_on_last (isA : Name → Name → Bool) (pre : List Slot) (s : Slot) :
+    bindArgs .lastOnly isA (pre ++ [s]) = .ran ↔ s.fine isA = true := by
+  simp only [bindArgs]
+  rw [bindLast_append]
+  cases hb : bindStep isA (0 + pre.length) s with
+  | none => simpa using (bindStep_none_iff isA _ s).mp hb
+  | some o =>
+    have ho := bindStep_some isA _ s o hb
+    rw [ho.1]
+    constructor
+    · intro h
+      rcases ho.2 with ⟨_, h2⟩ | ⟨_, h2⟩ <;> (rw [h2] at h; cases h)
+    · intro h; cases h
+
+/-- **C07_last_only_counterexample.** `new Pair("one", "s")` for `__construct(int $a, string $b)` under such a
+loop: the first slot refuses its value and the body runs all the same. (The seeded change; the harness replays
+it as `argpos:ctorParam/pos:admitted:mistyped:nonlast`.) -/
+theorem C07_last_only_counterexample (isA : Name → Name → Bool) :
+    ∃ slots : List Slot, (∃ s ∈ slots, s.fine isA = false) ∧ bindArgs .lastOnly isA slots = .ran :=
+  ⟨[⟨.exact, .int, .val .str⟩, ⟨.exact, .str, .val .str⟩], ⟨⟨.exact, .int, .val .str⟩, by simp, rfl⟩, rfl⟩
+
+example : bindArgs .eachChecked (fun _ _ => false) [⟨.exact, .int, .val .str⟩, ⟨.exact, .str, .val .str⟩] = .rejected 0 := by
+  decide
+example : bindArgs .eachChecked (fun _ _ => false) [⟨.exact, .int, .val .int⟩, ⟨.exact, .str, .throws⟩, ⟨.exact, .arr, .val .int⟩] = .raised 1 := by
+  decide
+example : bindEvalFirst .eachChecked (fun _ _ => false) [⟨.exact, .int, .val .str⟩, ⟨.exact, .str, .throws⟩] = .raised 1 := by
+  decide
+example : bindArgs .eachChecked (fun _ _ => false) [⟨.exact, .int, .val .int⟩, ⟨.exact, .nullable .str, .val .null⟩] = .ran := by
+  decide
+
+/-- **C07_store_sequence_all_or_first.** Several typed properties written in one go: no store is refused iff every
+value is admitted; otherwise the refused store is the first whose value is not admitted, every slot before it is
+written with the value offered to it and no slot from it on is written. -/
+theorem C07_store_sequence_all_or_first (isA : Name → Name → Bool) (l : List (BKind × Ty × ValKind)) :
+    ((storeSeq isA 0 l).1 = none ↔ ∀ x ∈ l, admits isA x.1 x.2.1 x.2.2 = true) ∧
+    (∀ n, (storeSeq isA 0 l).1 = some n →
+      ∃ x, l[n]? = some x ∧ admits isA x.1 x.2.1 x.2.2 = false ∧
+        (∀ k, k < n → ∀ y, l[k]? = some y → admits isA y.1 y.2.1 y.2.2 = true ∧ (storeSeq isA 0 l).2[k]? = some (some y.2.2)) ∧
+        (∀ k, n ≤ k → k < l.length → (storeSeq isA 0 l).2[k]? = some none)) := by
+  refine ⟨storeSeq_none_iff isA l 0, ?_⟩
+  intro n h
+  obtain ⟨j, x, hn, hx, hxa, hb, ha⟩ := storeSeq_first isA l 0 n h
+  have : n = j := by omega
+  subst this
+  exact ⟨x, hx, hxa, hb, ha⟩
+
+/-- **C07_store_sequence_typed.** Whatever the sequence and wherever it stops: a slot behind an exact boundary
+holds afterwards nothing but a value its declared type denotes. -/
+theorem C07_store_sequence_typed (H : Hier) (isA : Name → Name → Bool) (hi : ∀ c n, isA c n = true ↔ IsA H c n)
+    (l : List (BKind × Ty × ValKind)) (hk : ∀ x ∈ l, x.1 = .exact) (j : Nat) (w : ValKind)
+    (h : (storeSeq isA 0 l).2[j]? = some (some w)) : ∃ x, l[j]? = some x ∧ denote H x.2.1 w := by
+  obtain ⟨x, hx, _, hxa⟩ := storeSeq_holds isA l 0 j w h
+  have hm : x ∈ l := List.mem_of_getElem? hx
+  rw [hk x hm] at hxa
+  exact ⟨x, hx, (C07_boundary_exact H isA hi x.2.1 w).mp hxa⟩
+
+example : storeSeq (fun _ _ => false) 0 [(.exact, .int, .int), (.exact, .str, .int), (.exact, .arr, .arr)]
+    = (some 1, [some .int, none, none]) := by decide
+
+/-- **C07_expression_allowed_iff_all.** Several member accesses in one argument list / array literal / operator
+expression / statement sequence: it is evaluated to the end iff every access is allowed. -/
+theorem C07_expression_allowed_iff_all (T : Table) (H : Hier) (steps : List Step) (σ : Store) :
+    (evalArgs T H 0 σ steps).1 = none ↔ ∀ st ∈ steps, verdict T H st = .allowed :=
+  evalArgs_none_iff T H steps 0 σ
+
+/-- **C07_expression_stops_at_first_refusal.** … otherwise it stops at the first access that is not allowed, and
+the store holds the effects of the operands before it and nothing else (not of the refused one, not of those
+after it; the callee, which comes after all of them, does not run). -/
+theorem C07_expression_stops_at_first_refusal (T : Table) (H : Hier) (steps : List Step) (σ : Store) (n : Nat)
+    (h : (evalArgs T H 0 σ steps).1 = some n) :
+    ∃ st, steps[n]? = some st ∧ verdict T H st ≠ .allowed ∧
+      (∀ k, k < n → ∀ u, steps[k]? = some u → verdict T H u = .allowed) ∧
+      (evalArgs T H 0 σ steps).2 = (steps.take n).foldl (fun σ u => σ.after u.op) σ := by
+  obtain ⟨j, st, hn, hst, hv, hb, hs⟩ := evalArgs_first T H steps 0 σ n h
+  have : n = j := by omega
+  subst this
+  exact ⟨st, hst, hv, hb, hs⟩
+
+example : (evalArgs pinned [⟨1, none, []⟩] 0 ⟨fun _ => 1, fun _ => 0⟩
+    [⟨⟨.methCall, .other, .pub, none, none, 1, 1⟩, .call 1⟩,
+     ⟨⟨.propRead, .other, .priv, none, none, 1, 1⟩, .read 9⟩,
+     ⟨⟨.methCall, .other, .pub, none, none, 1, 1⟩, .call 3⟩]).1 = some 1 := by decide
+
 /-- every arm of every access node is at least as strict as the known findings say -/
 theorem C07_table_within_known : TableOK Generated.C07Access.table = true := by decide
 
@@ -733,15 +882,263 @@ theorem C07_generated_exact_boundaries (H : Hier) (isA : Name → Name → Bool)
   rw [BoundariesOK_exact C07_boundaries_within_known hk]
   exact C07_boundary_exact H isA hi t v
 
+/-- every binding loop tests the result of binding a parameter before it binds the next one (regenerated from
+`CallExpression.GetValue`, `createInstanceFromClassStmt`, `callMethodParams`, `handleFuncValue` on every run) -/
+theorem C07_bind_loops_each_checked :
+    Generated.C07Access.bindLoops.map (·.1) = ["fn", "ctor", "method", "funcValue"] ∧
+    Generated.C07Access.bindLoops.all (fun p => p.2 == .eachChecked) = true := by decide
+
+/-- **C07_generated_calls_exact.** For the loops and the boundary kinds regenerated on this run: a call through
+any of the four loops, over parameters whose boundaries are known as exact, runs the body iff every parameter is
+handed a value its declared type denotes. -/
+theorem C07_generated_calls_exact (H : Hier) (isA : Name → Name → Bool) (hi : ∀ c n, isA c n = true ↔ IsA H c n)
+    (loop : String × LoopShape) (hl : loop ∈ Generated.C07Access.bindLoops)
+    (ps : List (Boundary × Ty × Arg)) (hk : ∀ p ∈ ps, knownBoundary p.1 = .exact) :
+    bindArgs loop.2 isA (ps.map fun p => ⟨Generated.C07Access.boundary p.1, p.2.1, p.2.2⟩) = .ran ↔
+      ∀ p ∈ ps, ∃ v, p.2.2 = .val v ∧ denote H p.2.1 v := by
+  have hsh : loop.2 = .eachChecked := by
+    have := List.all_eq_true.mp C07_bind_loops_each_checked.2 loop hl
+    simpa using this
+  rw [hsh, C07_call_exact H isA hi]
+  · simp only [List.mem_map, forall_exists_index, and_imp]
+    constructor
+    · intro h p hp
+      exact h _ p hp rfl
+    · intro h s p hp hs
+      subst hs
+      exact h p hp
+  · simp only [List.mem_map, forall_exists_index, and_imp]
+    intro s p hp hs
+    subst hs
+    exact BoundariesOK_exact C07_boundaries_within_known (hk p hp)
+
+/-! ## named arguments: which parameter an argument reaches does not depend on how the call is written
+
+`fixes/C07-7-named-arguments` put one function, `resolveNamedArguments`, in front of the four binding loops
+(`Model.ArgNames.resolve` mirrors it; `Generated.C07Access.namedFirst` and the text checks of the translator tie
+it to the source on every run). The theorems above take the slots in parameter order; these say how a call as
+WRITTEN — positional arguments, `name: expr` in any order, parameters left out — becomes such a list. -/
+section NamedArguments
+open Model.ArgNames Proofs.AccessNamed
+
+/-- **C07_named_call_admitted_iff.** A call with positional and named arguments, through a loop that tests each
+binding, runs the callee's body iff the names resolve and, parameter by parameter: an argument that reaches the
+parameter is a value its boundary lets in (no argument throws); a parameter that no argument reaches has a default
+value or a declared type that accepts `null`. Nothing else matters — not the order in which the arguments are
+written, not the position of the parameter, not whether all arguments are evaluated before the first is bound. -/
+theorem C07_named_call_admitted_iff (evalFirst : Bool) (isA : Name → Name → Bool) (params : List Param)
+    (args : List CallArg) :
+    callNamed .eachChecked evalFirst isA params args = .call .ran ↔
+      ∃ out, resolve (params.map (·.name)) args = .ok out ∧
+        ∀ i p, params[i]? = some p →
+          match recv out i with
+          | some (.val v) => admits isA p.k p.t v = true
+          | some .throws => False
+          | none => p.dflt.isSome = true ∨ admits isA p.k p.t .null = true := by
+  unfold callNamed
+  cases hr : resolve (params.map (·.name)) args with
+  | error e => simp
+  | ok out =>
+    simp only [Outcome.call.injEq, Except.ok.injEq, exists_eq_left']
+    have hran : (if evalFirst = true then bindEvalFirst .eachChecked isA (slotsFrom isA out 0 params)
+        else bindArgs .eachChecked isA (slotsFrom isA out 0 params)) = .ran ↔
+        bindArgs .eachChecked isA (slotsFrom isA out 0 params) = .ran := by
+      cases evalFirst
+      · simp
+      · simpa using bindEvalFirst_ran_iff isA (slotsFrom isA out 0 params)
+    rw [hran, C07_call_accepted_iff_all]
+    constructor
+    · intro h i p hp
+      have hs : (slotsFrom isA out 0 params)[i]? = some (slotOf isA p (recv out i)) := by
+        rw [slotsFrom_getElem, hp]; simp
+      exact (slotOf_fine isA p (recv out i)).mp (h _ (List.mem_of_getElem? hs))
+    · intro h s hs
+      obtain ⟨i, hi⟩ := List.getElem?_of_mem hs
+      rw [slotsFrom_getElem] at hi
+      cases hp : params[i]? with
+      | none => rw [hp] at hi; cases hi
+      | some p =>
+        rw [hp] at hi
+        simp only [Option.map_some, Nat.zero_add, Option.some.injEq] at hi
+        rw [← hi]
+        exact (slotOf_fine isA p (recv out i)).mpr (h i p hp)
+
+/-- **C07_named_call_exact.** With exact parameter boundaries (what `C07_boundaries_within_known` demands of every
+parameter kind): a call as written runs the body iff the names resolve, every argument that reaches a parameter is
+a value the parameter's declared type denotes, and every parameter that no argument reaches has a default value or
+a declared type that denotes `null`. -/
+theorem C07_named_call_exact (H : Hier) (isA : Name → Name → Bool) (hi : ∀ c n, isA c n = true ↔ IsA H c n)
+    (evalFirst : Bool) (params : List Param) (hk : ∀ p ∈ params, p.k = .exact) (args : List CallArg) :
+    callNamed .eachChecked evalFirst isA params args = .call .ran ↔
+      ∃ out, resolve (params.map (·.name)) args = .ok out ∧
+        ∀ i p, params[i]? = some p →
+          match recv out i with
+          | some (.val v) => denote H p.t v
+          | some .throws => False
+          | none => p.dflt.isSome = true ∨ denote H p.t .null := by
+  rw [C07_named_call_admitted_iff]
+  constructor
+  · rintro ⟨out, hr, h⟩
+    refine ⟨out, hr, fun i p hp => ?_⟩
+    have h' := h i p hp
+    have hke := hk p (List.mem_of_getElem? hp)
+    cases hrv : recv out i with
+    | none =>
+      rw [hrv] at h'
+      simp only at h' ⊢
+      rw [hke] at h'
+      exact h'.imp id (C07_boundary_exact H isA hi p.t .null).mp
+    | some a =>
+      cases a with
+      | val v =>
+        rw [hrv] at h'
+        simp only at h' ⊢
+        rw [hke] at h'
+        exact (C07_boundary_exact H isA hi p.t v).mp h'
+      | throws => rw [hrv] at h'; exact h'
+  · rintro ⟨out, hr, h⟩
+    refine ⟨out, hr, fun i p hp => ?_⟩
+    have h' := h i p hp
+    have hke := hk p (List.mem_of_getElem? hp)
+    cases hrv : recv out i with
+    | none =>
+      rw [hrv] at h'
+      simp only at h' ⊢
+      rw [hke]
+      exact h'.imp id (C07_boundary_exact H isA hi p.t .null).mpr
+    | some a =>
+      cases a with
+      | val v =>
+        rw [hrv] at h'
+        simp only at h' ⊢
+        rw [hke]
+        exact (C07_boundary_exact H isA hi p.t v).mpr h'
+      | throws => rw [hrv] at h'; exact h'
+
+/-- **C07_named_order_irrelevant.** Write the named arguments of a call in any order (after whatever comes before
+them): either every order is refused before anything is bound, or every order yields the same outcome — the same
+parameters receive the same arguments, the same slot is reported, the body runs or it does not. For every
+parameter list, every loop shape, every number of arguments. -/
+theorem C07_named_order_irrelevant (sh : LoopShape) (evalFirst : Bool) (isA : Name → Name → Bool)
+    (params : List Param) (pre : List CallArg) (l₁ l₂ : List (PName × ArgV)) (hp : l₁.Perm l₂) :
+    (∃ e₁ e₂, callNamed sh evalFirst isA params (pre ++ mkNamed l₁) = .unresolved e₁ ∧
+        callNamed sh evalFirst isA params (pre ++ mkNamed l₂) = .unresolved e₂) ∨
+    (∃ o, callNamed sh evalFirst isA params (pre ++ mkNamed l₁) = .call o ∧
+        callNamed sh evalFirst isA params (pre ++ mkNamed l₂) = .call o) := by
+  unfold callNamed resolve
+  rw [resolveFrom_append, resolveFrom_append]
+  cases hpre : resolveFrom (params.map (·.name)) [] pre with
+  | error e => exact .inl ⟨e, e, rfl, rfl⟩
+  | ok o =>
+    simp only
+    rcases resolveFrom_perm (params.map (·.name)) hp o o (Same.rfl' o) with ⟨e₁, e₂, h₁, h₂⟩ | ⟨r₁, r₂, h₁, h₂, hs⟩
+    · rw [h₁, h₂]; exact .inl ⟨e₁, e₂, rfl, rfl⟩
+    · rw [h₁, h₂]
+      simp only
+      rw [slotsFrom_congr isA r₁ r₂ hs params 0]
+      exact .inr ⟨_, rfl, rfl⟩
+
+/-- **C07_named_unknown_or_repeated_refused.** A call is refused before anything is evaluated or bound when an
+argument names no parameter, names a parameter that a positional argument has filled, or names a parameter that an
+earlier named argument has filled — wherever that argument stands; and resolving never indexes out of range. -/
+theorem C07_named_unknown_or_repeated_refused (sh : LoopShape) (evalFirst : Bool) (isA : Name → Name → Bool)
+    (params : List Param) :
+    (∀ args n a, CallArg.named n a ∈ args → indexOf n (params.map (·.name)) = none →
+        ∃ e, callNamed sh evalFirst isA params args = .unresolved e) ∧
+    (∀ (l : List ArgV) rest n a idx, CallArg.named n a ∈ rest → indexOf n (params.map (·.name)) = some idx →
+        idx < l.length → ∃ e, callNamed sh evalFirst isA params (l.map .pos ++ rest) = .unresolved e) ∧
+    (∀ pre rest n a n' b idx, indexOf n (params.map (·.name)) = some idx →
+        indexOf n' (params.map (·.name)) = some idx → CallArg.named n' b ∈ rest →
+        ∃ e, callNamed sh evalFirst isA params (pre ++ CallArg.named n a :: rest) = .unresolved e) ∧
+    (∀ args, callNamed sh evalFirst isA params args ≠ .unresolved .crash) := by
+  refine ⟨?_, ?_, ?_, ?_⟩
+  · intro args n a hm hi
+    obtain ⟨e, he⟩ := resolveFrom_unknown (params.map (·.name)) args [] n a hm hi
+    exact ⟨e, by simp [callNamed, resolve, he]⟩
+  · intro l rest n a idx hm hi hlt
+    have hpos := resolveFrom_positional (params.map (·.name)) l []
+    have hrecv : recv ([] ++ l.map some) idx = some l[idx] := by
+      rw [List.nil_append, recv_positional, List.getElem?_eq_getElem hlt]
+    obtain ⟨e, he⟩ := resolveFrom_taken (params.map (·.name)) rest _ idx _ n a hrecv hm hi
+    refine ⟨e, ?_⟩
+    simp only [callNamed, resolve]
+    rw [resolveFrom_append, hpos]
+    simp only
+    rw [he]
+  · intro pre rest n a n' b idx hi hi' hm
+    simp only [callNamed, resolve]
+    rw [resolveFrom_append]
+    cases hpre : resolveFrom (params.map (·.name)) [] pre with
+    | error e => exact ⟨e, rfl⟩
+    | ok o =>
+      simp only
+      rw [resolveFrom_cons]
+      rcases place_named (params.map (·.name)) o n a with ⟨_, he⟩ | ⟨_, _, _, _, he⟩ | ⟨idx₁, o', hi₁, _, he, hv⟩
+      · rw [he]; exact ⟨_, rfl⟩
+      · rw [he]; exact ⟨_, rfl⟩
+      · rw [he]
+        simp only
+        rw [hi] at hi₁
+        cases hi₁
+        have hr : recv o' idx = some a := by rw [hv idx]; simp
+        obtain ⟨e, he'⟩ := resolveFrom_taken (params.map (·.name)) rest o' idx a n' b hr hm hi'
+        rw [he']
+        exact ⟨e, rfl⟩
+  · intro args h
+    simp only [callNamed, resolve] at h
+    cases hr : resolveFrom (params.map (·.name)) [] args with
+    | error e =>
+      rw [hr] at h
+      simp only [Outcome.unresolved.injEq] at h
+      subst h
+      exact resolveFrom_no_crash _ _ _ hr
+    | ok o => rw [hr] at h; cases h
+
+/-- **C07_positional_call_unchanged.** A call without names: the `i`-th parameter receives the `i`-th argument
+(`resolveNamedArguments` hands the list back untouched), so `callNamed` is the binding loop of the theorems above. -/
+theorem C07_positional_call_unchanged (params : List Param) (l : List ArgV) :
+    resolve (params.map (·.name)) (l.map .pos) = .ok (l.map some) ∧ ∀ i, recv (l.map some) i = l[i]? := by
+  refine ⟨?_, recv_positional l⟩
+  have := resolveFrom_positional (params.map (·.name)) l []
+  simpa [resolve] using this
+
+/-- every binding loop resolves the named arguments before it binds (regenerated from the four functions on every
+run: `x, err := resolveNamedArguments(params, args)` followed by the test of `err`, before the loop) -/
+theorem C07_named_resolved_before_binding :
+    Generated.C07Access.namedFirst = [("fn", true), ("ctor", true), ("method", true), ("funcValue", true)] := by
+  decide
+
+-- `f(1, c: [5])` for `f(int $a, string $b = "d", array $c = [])`: `$b` takes its default, the body runs
+example : callNamed .eachChecked false (fun _ _ => false)
+    [⟨0, .exact, .int, none⟩, ⟨1, .exact, .str, some .str⟩, ⟨2, .exact, .arr, some .arr⟩]
+    [.pos (.val .int), .named 2 (.val .arr)] = .call .ran := by decide
+-- `$o->m(b: "s", a: 1)` for `m(int $a, string $b)`: accepted; `m(b: 1, a: "s")`: parameter 0 is reported
+example : callNamed .eachChecked true (fun _ _ => false) [⟨0, .exact, .int, none⟩, ⟨1, .exact, .str, none⟩]
+    [.named 1 (.val .str), .named 0 (.val .int)] = .call .ran := by decide
+example : callNamed .eachChecked true (fun _ _ => false) [⟨0, .exact, .int, none⟩, ⟨1, .exact, .str, none⟩]
+    [.named 1 (.val .int), .named 0 (.val .str)] = .call (.rejected 0) := by decide
+-- `f(1)` for `f(int $a, array $c)`: refused (缺少参数); for `f(int $a, ?array $c)`: `$c` stays null
+example : callNamed .eachChecked false (fun _ _ => false) [⟨0, .exact, .int, none⟩, ⟨1, .exact, .arr, none⟩]
+    [.pos (.val .int)] = .call (.rejected 1) := by decide
+example : callNamed .eachChecked false (fun _ _ => false) [⟨0, .exact, .int, none⟩, ⟨1, .exact, .nullable .arr, none⟩]
+    [.pos (.val .int)] = .call .ran := by decide
+-- `f(1, a: 2)`: the parameter is filled already; `f(zz: 1)`: no such parameter
+example : callNamed .eachChecked false (fun _ _ => false) [⟨0, .exact, .int, none⟩]
+    [.pos (.val .int), .named 0 (.val .int)] = .unresolved (.duplicate 0) := by decide
+example : callNamed .eachChecked false (fun _ _ => false) [⟨0, .exact, .int, none⟩]
+    [.named 7 (.val .int)] = .unresolved (.unknown 7) := by decide
+
+end NamedArguments
+
 /-- **C07_known_tightened.** The known tables shrank: no arm and no boundary is known worse than before the
-second round of repairs, 23 of the 38 arms and 8 of the 13 boundaries are known strictly better. -/
+second round of repairs, 23 of the 38 arms and 9 of the 14 boundaries are known strictly better. -/
 theorem C07_known_tightened :
     (Path.all.all fun p => [Recv.this, Recv.other].all fun r =>
         (known p r).rank ≤ (knownBefore p r).rank) = true ∧
     ((Path.all.flatMap fun p => [Recv.this, Recv.other].filter fun r =>
         (known p r).rank < (knownBefore p r).rank).length) = 23 ∧
     (Boundary.all.all fun b => BKind.rank (knownBoundary b) ≤ BKind.rank (knownBoundaryBefore b)) = true ∧
-    (Boundary.all.filter fun b => BKind.rank (knownBoundary b) < BKind.rank (knownBoundaryBefore b)).length = 8 := by
+    (Boundary.all.filter fun b => BKind.rank (knownBoundary b) < BKind.rank (knownBoundaryBefore b)).length = 9 := by
   decide
 
 /-- `new` runs the abstract test and the completeness validation on every call (what `Model.Inst.newRun` and
